@@ -9,7 +9,7 @@ CONSTANTS
   MaxView = 2
   ViewCap = 2
   HonestPayloads <- Alternating
-  EnableLeaderNV = FALSE
+  EnableLeaderNV = TRUE
   MaxCrash = 0
   MaxBlocks = 2
 INIT InitView1
